@@ -44,24 +44,49 @@ type PanicInfo struct {
 	Frame string `json:"frame"`
 }
 
-var frameRe = regexp.MustCompile(`(?m)^(go\.flow\.arcalot\.io/pluginsdk/[^\s(]+|codegen[^\s(]*)\(`)
-var fileRe = regexp.MustCompile(`(?m)^\s+(/\S+\.go):(\d+)`)
+var genericRe = regexp.MustCompile(`\[[^\]]*\]`)
 
-// TopFrame extracts the topmost SDK function from a stack dump.
+// TopFrame extracts the topmost SDK function (package-qualified, receiver kept, arguments and generic
+// instantiation stripped) from a stack dump, e.g. "atp.(*atpServerSession).runStep".
 func TopFrame(stack string) string {
 	// skip everything up to the panic call itself
 	if i := strings.Index(stack, "panic("); i >= 0 {
 		stack = stack[i:]
 	}
-	m := frameRe.FindStringSubmatch(stack)
-	if m == nil {
-		return ""
+	for _, line := range strings.Split(stack, "\n") {
+		if !strings.HasPrefix(line, "go.flow.arcalot.io/pluginsdk/") && !strings.HasPrefix(line, "codegen") && !strings.HasPrefix(line, "main.") {
+			continue
+		}
+		if strings.HasPrefix(line, "main.") && !strings.Contains(stack, "codegen") {
+			continue
+		}
+		// cut the argument list: the parenthesis matching the final one
+		end := strings.LastIndexByte(line, ')')
+		if end < 0 {
+			continue
+		}
+		depth, start := 0, -1
+		for i := end; i >= 0; i-- {
+			switch line[i] {
+			case ')':
+				depth++
+			case '(':
+				depth--
+				if depth == 0 {
+					start = i
+				}
+			}
+			if start >= 0 {
+				break
+			}
+		}
+		if start <= 0 {
+			continue
+		}
+		fn := strings.TrimPrefix(line[:start], "go.flow.arcalot.io/pluginsdk/")
+		return genericRe.ReplaceAllString(fn, "")
 	}
-	fn := m[1]
-	fn = strings.TrimPrefix(fn, "go.flow.arcalot.io/pluginsdk/")
-	// strip generic instantiation noise
-	fn = regexp.MustCompile(`\[[^\]]*\]`).ReplaceAllString(fn, "")
-	return fn
+	return ""
 }
 
 // Guard runs f and converts a panic into a PanicInfo.
